@@ -418,6 +418,14 @@ var scripts = []*script{
 	{name: "stale-handle-copy", ops: [][]*op{{{kind: "aa", h: 1, tag: 1, num: 2}}, {{kind: "aa", h: 1, tag: 1, num: 1}},
 		{{kind: "rel", rel: []relOpt{{base0 + 2, 0}, {base0 + 2, 0}, {base0 + 2, 0}}}}},
 		sched: []schedEntry{{0, 1000, mb.Proceed}, {2, 1, mb.Proceed}, {1, 1000, mb.Proceed}, {2, 1000, mb.Proceed}}},
+	// ReleaseByHandle reads a non-affine block holding one address of the handle and is about to delete it; a
+	// ReleaseIPs of that address deletes the block (and the handle) first; ReleaseByHandle's delete answers
+	// "not found"; the address is assigned again with the same handle; ReleaseByHandle then runs on
+	{name: "releasebyhandle-notfound", ops: [][]*op{
+		{{kind: "aip", h: 1, tag: 1, addr: base0}, {kind: "relaff", addr: base0, must: false}},
+		{{kind: "rbh", h: 1}}, {{kind: "rel", rel: []relOpt{{base0, 0}}}}, {{kind: "aip", h: 1, tag: 1, addr: base0}}},
+		sched: []schedEntry{{0, 1000, mb.Proceed}, {1, 2, mb.Proceed}, {2, 1000, mb.Proceed}, {1, 1, mb.Proceed},
+			{3, 1000, mb.Proceed}, {1, 1000, mb.Proceed}}},
 }
 
 func runCase(seed uint64, conc bool, sc *script) (string, bool, string, map[string]any, []string) {
@@ -746,8 +754,8 @@ func runCase(seed uint64, conc bool, sc *script) (string, bool, string, map[stri
 	for h, s := range cfg.starts {
 		starts = append(starts, fmt.Sprintf("(%d%%N, %d%%nat)", h, s))
 	}
-	fmt.Fprintf(&sb, "{| c_cfg := {| cf_strict := %s; cf_autoalloc := %s; cf_maxblocks := %d%%nat; cf_pool_base := %d%%N; cf_nblocks := %d%%nat; cf_bsize := %d%%nat; cf_retries := %d%%nat; cf_starts := [%s]; cf_count_requested := %s; cf_aip_leak := %s; cf_stale_cache := %s |}; c_fx := %s; ",
-		b2s(cfg.strict), b2s(cfg.autoalloc), mbk, cfg.base, cfg.nblocks, cfg.bsize, ipam.VerifDatastoreRetries, strings.Join(starts, "; "), b2s(modelUnfixed), b2s(modelUnfixed), b2s(modelUnfixed), b2s(claimBumps != modelFlip))
+	fmt.Fprintf(&sb, "{| c_cfg := {| cf_strict := %s; cf_autoalloc := %s; cf_maxblocks := %d%%nat; cf_pool_base := %d%%N; cf_nblocks := %d%%nat; cf_bsize := %d%%nat; cf_retries := %d%%nat; cf_starts := [%s]; cf_count_requested := %s; cf_aip_leak := %s; cf_stale_cache := %s |}; c_fx := %s; c_fy := %s; ",
+		b2s(cfg.strict), b2s(cfg.autoalloc), mbk, cfg.base, cfg.nblocks, cfg.bsize, ipam.VerifDatastoreRetries, strings.Join(starts, "; "), b2s(modelUnfixed), b2s(modelUnfixed), b2s(modelUnfixed), b2s(claimBumps != modelFlip), b2s(rbhReturns != modelFlipY))
 	var cl []string
 	for _, cs := range clients {
 		var os []string
@@ -861,7 +869,7 @@ func runCase(seed uint64, conc bool, sc *script) (string, bool, string, map[stri
 	if sc != nil {
 		tags = append(tags, "witness:"+sc.name)
 	}
-	tags = append(tags, fmt.Sprintf("claim-bumps-revision:%v", claimBumps))
+	tags = append(tags, fmt.Sprintf("claim-bumps-revision:%v", claimBumps), fmt.Sprintf("rbh-notfound-returns:%v", rbhReturns))
 	nt := nAssign > 0 && released
 	if conc {
 		nt = nAssign > 0 && (sawConflict || crashes > 0)
@@ -879,7 +887,66 @@ type line struct {
 	Tags   []string       `json:"tags"`
 }
 
-var modelUnfixed, modelFlip, claimBumps bool
+var modelUnfixed, modelFlip, claimBumps, modelFlipY, rbhReturns bool
+
+// probeRbhReturns reports which releaseByHandle the tree has: with fixes/C19-releasebyhandle-notfound-no-decrement.patch
+// a ReleaseByHandle whose compare-and-delete of the emptied non-affine block answers "not found" returns at once;
+// the code without the patch goes on to decrement the handle (one more handle access).
+func probeRbhReturns() bool {
+	logrus.SetLevel(logrus.PanicLevel)
+	auto := v3.Automatic
+	pool := v3.IPPool{ObjectMeta: metav1.ObjectMeta{Name: "pool0"}, Spec: v3.IPPoolSpec{
+		CIDR: fmt.Sprintf("%s/%d", ip4(base0), 30), BlockSize: 31,
+		AllowedUses:    []v3.IPPoolAllowedUse{v3.IPPoolAllowedUseWorkload, v3.IPPoolAllowedUseTunnel},
+		AssignmentMode: &auto,
+	}}
+	st := mb.NewStore()
+	ctx := context.Background()
+	n := internalapi.NewNode()
+	n.Name = "n0"
+	if _, err := st.Apply(ctx, &model.KVPair{Key: model.ResourceKey{Kind: internalapi.KindNode, Name: n.Name}, Value: n}); err != nil {
+		panic(err)
+	}
+	pa := &pools{pool: pool}
+	raw := ipam.NewIPAMClient(st, pa, noReservations{}) // unscheduled: runs to completion at once
+	h := "h1"
+	x := cnet.IP{IP: ip4(base0)}
+	cidr := cnet.IPNet{IPNet: net.IPNet{IP: ip4(base0), Mask: net.CIDRMask(31, 32)}}
+	if err := raw.AssignIP(ctx, ipam.AssignIPArgs{IP: x, HandleID: &h, Attrs: map[string]string{"tag": "1"}, Hostname: "n0"}); err != nil {
+		panic(err)
+	}
+	if err := raw.ReleaseAffinity(ctx, cidr, "n0", false); err != nil {
+		panic(err)
+	}
+	sched := mb.NewSched(st)
+	sched.Scheduled = mb.IPAMOnly
+	runner := mb.NewRunner(sched)
+	ic := ipam.NewIPAMClient(sched.Client(0), pa, noReservations{})
+	runner.Start(0, func() { _ = ic.ReleaseByHandle(ctx, h) })
+	handleAccessesAfter := 0
+	sawNotFound := false
+	for len(runner.Pending()) > 0 {
+		c := runner.Peek(0)
+		if _, ok := c.Key.(model.BlockKey); ok && c.Op == "delete" && !sawNotFound {
+			// somebody else releases the address (and deletes the block) first
+			if _, _, err := raw.ReleaseIPs(ctx, ipam.ReleaseOptions{Address: x.String()}); err != nil {
+				panic(err)
+			}
+		}
+		done := runner.Step(0, mb.Proceed)
+		if _, ok := done.Key.(model.BlockKey); ok && done.Op == "delete" && done.Result == "notfound" {
+			sawNotFound = true
+			continue
+		}
+		if _, ok := done.Key.(model.IPAMHandleKey); ok && sawNotFound {
+			handleAccessesAfter++
+		}
+	}
+	if !sawNotFound {
+		panic("probeRbhReturns: the probe scenario did not reach the not-found answer")
+	}
+	return handleAccessesAfter == 0
+}
 
 // probeClaimBumps reports which claimAffineBlock the tree has: with fixes/C22-claim-existing-block-bumps-revision.patch
 // a ClaimAffinity of a block that this host already owns writes the block back (one block update) before
@@ -926,9 +993,11 @@ func main() {
 	mode := flag.String("mode", "mixed", "seq | conc | mixed")
 	only := flag.Int("only", -1, "emit only the case with this index (replay)")
 	noScripts := flag.Bool("no-scripts", false, "do not start with the scripted witness cases")
+	flag.BoolVar(&modelFlipY, "model-flip-y", false, "tell the model the opposite of what the probe of releaseByHandle found (debugging aid)")
 	flag.BoolVar(&modelFlip, "model-flip", false, "tell the model the opposite of what the probe of claimAffineBlock found (debugging aid)")
 	flag.Parse()
 	claimBumps = probeClaimBumps()
+	rbhReturns = probeRbhReturns()
 	enc := json.NewEncoder(os.Stdout)
 	for i := 0; i < *n; i++ {
 		if *only >= 0 && i != *only {
